@@ -41,7 +41,7 @@ ASSUMPTIONS = ["at most one edge per unordered pair in the written state (GEL's 
                "'latest' is what discovery picks by (simulated) mtime; the loaded state is compared with the write that produced that file"]
 SHRINK_FIELDS = ["ops"]
 
-IDS = ["a", "b", "c", "ü", "n.1", "日本", "x→y", "A"]
+IDS = ["a", "b", "c", "ü", "n.1", "日本", "x→y", "A", "l\u2028s", "n\x85l"]
 
 
 def _gel(r) -> Any:
